@@ -258,6 +258,9 @@ class Interp:
             return
         if isinstance(s, ast.For):
             it = self.ev(s.iter, env)
+            if isinstance(it, SymRange) and isinstance(s.target, ast.Name) and not s.orelse:
+                self.map_loop(s, it, env)
+                return
             if isinstance(it, (SymRange, SymArray, SymList)):
                 raise Unsupported("loop with symbolic trip count at line %d" % s.lineno)
             for x in list(it):
@@ -275,6 +278,48 @@ class Interp:
                 raise Raised(s.lineno, "assert " + ast.unparse(s.test)[:100])
             return
         raise Unsupported("statement %s at line %d" % (type(s).__name__, getattr(s, "lineno", 0)))
+
+    def map_loop(self, s, it, env):
+        """`for i in range(n): <locals>; lst.append(f(i))` with symbolic n and lst empty before the loop.
+        Invariant (by construction of the pattern): after k iterations lst == [f(0), .., f(k-1)] and nothing else visible changed; the body is
+        executed once for a fresh universally quantified i in [0, n) and must (a) append exactly one element to exactly one list that was empty,
+        (b) rebind no name that existed before the loop, (c) contain no return / break / continue.  Anything else leaves the subset."""
+        from . import bilinear
+
+        for node in ast.walk(s):
+            if isinstance(node, (ast.Return, ast.Break, ast.Continue, ast.While)):
+                raise Unsupported("symbolic loop with control transfer at line %d" % s.lineno)
+        n = it.n
+        i = sym.world().fresh_digit("i", n)
+        before = {k: v for k, v in env.items()}
+        lists = {id(v): (k, len(v)) for k, v in env.items() if isinstance(v, list)}
+        env2 = dict(env)
+        env2[s.target.id] = i
+        self.block(s.body, env2)
+        grown = []
+        for k, v in before.items():
+            if env2.get(k) is not v:
+                raise Unsupported("symbolic loop rebinds the outer name %s at line %d" % (k, s.lineno))
+            if isinstance(v, list):
+                if len(v) == lists[id(v)][1] + 1:
+                    grown.append(k)
+                elif len(v) != lists[id(v)][1]:
+                    raise Unsupported("symbolic loop changes the length of %s by more than one" % k)
+        if len(grown) != 1 or len(before[grown[0]]) != 1:
+            raise Unsupported("symbolic loop at line %d is not a single append to an empty list" % s.lineno)
+        name = grown[0]
+        elem = before[name].pop()  # restore the caller-visible list object, then rebind the name to the symbolic list
+        if not isinstance(elem, SymArray):
+            raise Unsupported("symbolic loop appends a non-array")
+
+        def at(j, elem=elem, i=i):
+            jv = j.value() if isinstance(j, Num) else sp.sympify(j)
+            if jv == i:
+                return elem
+            return bilinear.subst_array(elem, {i: jv})
+
+        env[name] = SymList(n, at, "arrays")
+        env[s.target.id] = n - 1
 
     def assign(self, t, v, env):
         if isinstance(t, ast.Name):
@@ -352,6 +397,26 @@ class Interp:
             raise Unsupported("operator %s" % type(op).__name__)
         if isinstance(a, AbsArr) or isinstance(b, AbsArr):
             return AbsArr(a.shape if isinstance(a, AbsArr) else b.shape)
+        if isinstance(a, SymArray) and isinstance(b, SymArray) and isinstance(op, (ast.MatMult, ast.Add)):
+            from . import bilinear
+
+            return bilinear.matmul(a, b) if isinstance(op, ast.MatMult) else bilinear.add_arrays(a, b)
+        if isinstance(a, SymArray) and isinstance(b, SymArray) and isinstance(op, ast.Sub):
+            from . import bilinear
+
+            return bilinear.add_arrays(a, bilinear.scale(-1, b))
+
+        def _scalar(x):
+            return isinstance(x, (int, float, sp.Expr)) and not isinstance(x, bool)
+
+        if isinstance(a, SymArray) and _scalar(b) and isinstance(op, (ast.Mult, ast.Div)):
+            from . import bilinear
+
+            return bilinear.scale(sp.nsimplify(b) if isinstance(op, ast.Mult) else 1 / sp.nsimplify(b), a)
+        if isinstance(b, SymArray) and _scalar(a) and isinstance(op, ast.Mult):
+            from . import bilinear
+
+            return bilinear.scale(sp.nsimplify(a), b)
         if isinstance(a, (SymArray,)) or isinstance(b, (SymArray,)):
             raise Unsupported("arithmetic on a symbolic-shape array")
         if isinstance(op, (ast.FloorDiv, ast.Mod)) and (is_sym(a) or is_sym(b)):
@@ -453,6 +518,8 @@ class Interp:
                     return o.ndim
                 if e.attr == "size":
                     return o.size()
+                if e.attr == "dtype":
+                    return "dtype-of-input"
                 return ("method", o, e.attr)
             if isinstance(o, AbsArr):
                 if e.attr == "shape":
@@ -461,7 +528,7 @@ class Interp:
                     return o.shape
                 raise Unsupported("attribute %s of an abstracted array" % e.attr)
             if isinstance(o, np.ndarray):
-                if e.attr in ("astype", "tolist", "flatten", "copy", "reshape", "transpose"):
+                if e.attr in ("astype", "tolist", "flatten", "copy", "reshape", "transpose", "ravel"):
                     return ("npmethod", o, e.attr)
                 return getattr(o, e.attr)
             if isinstance(o, list):
@@ -489,7 +556,7 @@ class Interp:
             v = self.ev(e.value, env)
             env[e.target.id] = v
             return v
-        if isinstance(e, ast.ListComp) and len(e.generators) == 1 and not e.generators[0].ifs:
+        if isinstance(e, (ast.ListComp, ast.GeneratorExp)) and len(e.generators) == 1 and not e.generators[0].ifs:
             g = e.generators[0]
             it = self.ev(g.iter, env)
             if isinstance(it, (SymRange, SymArray, SymList)):
@@ -608,13 +675,16 @@ class Interp:
                 return (sp.Max if n == "max" else sp.Min)(*a)
             return (max if n == "max" else min)(a)
         if n == "any":
-            return any(args[0])
+            return any(self.truth(x, "any()") for x in args[0])
         if n == "all":
-            return all(args[0])
+            return all(self.truth(x, "all()") for x in args[0])
         if n == "abs":
             return abs(args[0])
         if n == "sum":
-            return sum(args[0]) if len(args) == 1 else sum(args[0], args[1])
+            acc = args[1] if len(args) > 1 else 0
+            for x in args[0]:
+                acc = x if (isinstance(acc, int) and acc == 0 and isinstance(x, SymArray)) else self.binop(ast.Add(), acc, x)
+            return acc
         if n == "enumerate":
             return list(enumerate(args[0]))
         if n == "zip":
@@ -662,6 +732,22 @@ class Interp:
             if isinstance(a, (SymArray, np.ndarray)):
                 return a
             return np.array(a, dtype=object) if has_sym(a) else np.asarray(a)
+        if q in ("np.zeros", "np.empty") and kw.get("dtype") == "int" and not has_sym(args[0] if isinstance(args[0], (tuple, list)) else [args[0]]):
+            # an integer work array of concrete shape: modelled with unbounded integers (S-int-math), so it can hold dimension symbols
+            out = np.empty(args[0] if not isinstance(args[0], sp.Integer) else int(args[0]), dtype=object)
+            out.fill(0)
+            return out
+        if q == "np.vstack" and isinstance(args[0], (list, tuple)) and args[0] and all(isinstance(a, SymArray) for a in args[0]):
+            from . import bilinear
+
+            return bilinear.stack_rows(list(args[0]))
+        if q == "np.vstack" and all(isinstance(a, np.ndarray) for a in args[0]):
+            return np.vstack(list(args[0]))
+        if q == "np.any" and isinstance(args[0], (np.ndarray, bool, np.bool_)):
+            vals = list(np.asarray(args[0], dtype=object).ravel())
+            if all(isinstance(v, (bool, np.bool_)) for v in vals):
+                return any(vals)
+            return sp.Or(*[sp.sympify(bool(v)) if isinstance(v, (bool, np.bool_)) else v for v in vals])
         if q in ("np.zeros", "np.empty"):
             shp = args[0]
             if has_sym(shp if isinstance(shp, (tuple, list)) else [shp]):
@@ -669,6 +755,8 @@ class Interp:
             return np.zeros(shp if not isinstance(shp, tuple) else tuple(int(x) for x in shp))
         if q == "np.eye":
             n = args[0]
+            if is_sym(n) and len(args) == 1 and set(kw) <= {"dtype"}:
+                return sym.identity(n)
             if is_sym(n):
                 return AbsArr((n, n))
             return np.eye(int(n))
@@ -717,6 +805,13 @@ class Interp:
             a = args[0]
             if isinstance(a, SymArray):
                 return sym.sym_sum(a, kw["axis"] if "axis" in kw else args[1])
+            if isinstance(a, list) and a and all(isinstance(x, SymArray) for x in a) and kw.get("axis", args[1] if len(args) > 1 else None) == 0:
+                from . import bilinear
+
+                out = a[0]
+                for x in a[1:]:
+                    out = bilinear.add_arrays(out, x)
+                return out
             return np.sum(*args, **kw)
         if q == "np.sqrt":
             a = args[0]
@@ -753,6 +848,29 @@ class Interp:
             if is_sym(n):
                 return sym.identity(n)
             return sym.identity(sp.Integer(int(n)))
+        if q in ("np.conjugate", "np.conj") and isinstance(args[0], SymArray):
+            return args[0].conj()
+        if q == "np.diag" and isinstance(args[0], SymArray) and len(args) == 1:
+            from . import bilinear
+
+            return bilinear.diag(args[0])
+        if q == "np.kron" and all(isinstance(a, SymArray) for a in args[:2]):
+            from . import bilinear
+
+            return bilinear.kron(args[0], args[1])
+        if q == "np.concatenate" and isinstance(args[0], (list, tuple)) and args[0] and all(isinstance(a, SymArray) for a in args[0]):
+            from . import bilinear
+
+            return bilinear.concatenate(list(args[0]), int(kw.get("axis", args[1] if len(args) > 1 else 0)))
+        if q == "np.matmul" and all(isinstance(a, SymArray) for a in args[:2]):
+            from . import bilinear
+
+            return bilinear.matmul(args[0], args[1])
+        if q == "itertools.chain":
+            out = []
+            for a in args:
+                out += list(a)
+            return out
         if q in ("sparse.issparse", "sp.sparse.issparse", "scipy.sparse.issparse"):
             return False
         if q in ("sp.sparse.identity", "sparse.identity", "scipy.sparse.identity"):
